@@ -1,8 +1,8 @@
 (* C17 -- Bounds stay in [0,1]; contradiction means crossed bounds; state() is total.
    The region thresholds, the contradiction rule and the state table are the generated ones
    (Generated/Tables.v), so every theorem here is re-checked against the current source. *)
-From LNN Require Import Num Neuron Node.
-From LNN.proofs Require Import NodeProofs NeuronProofs.
+From LNN Require Import Num Neuron Node PropEngine.
+From LNN.proofs Require Import NodeProofs NeuronProofs PropProofs.
 Open Scope Q_scope.
 
 (* every bound produced by aggregation or by an activation lies in [0,1] *)
@@ -56,6 +56,17 @@ Print Assumptions C17_state_characterisation.
 Theorem C17_regions_partition : forall al y, alpha_ok al -> in01 y -> (1 <= region_of al y <= 5)%Z.
 Proof. exact region_total. Qed.
 Print Assumptions C17_regions_partition.
+
+(* every bound reachable by any sequence of public inference calls stays in [0,1] *)
+Theorem C17_reachable_range : forall k roots s ops, Range s -> Range (exec_ops k roots s ops).
+Proof. intros. apply exec_ops_range; assumption. Qed.
+Print Assumptions C17_reachable_range.
+
+(* has_contradiction() is true exactly when some registered formula is a contradiction *)
+Theorem C17_has_contradiction_iff : forall k reg s,
+  has_contradiction k reg s = true <-> exists i, In i reg /\ obj_contra k s i = true.
+Proof. intros. unfold has_contradiction. apply existsb_exists. Qed.
+Print Assumptions C17_has_contradiction_iff.
 
 (* non-vacuity *)
 Example C17_examples :
